@@ -41,9 +41,13 @@ template <class T> static std::basic_string<T> cut_at_nul(const std::basic_strin
     return p == std::basic_string<T>::npos ? s : s.substr(0, p);
 }
 
+// The most negative value of a type goes through std::abs() in the library (undefined behaviour, C12's business, section 3.3): the sanitizer
+// build stays away from it, the plain builds insert it like any other value - what the stream then holds is C16's and C19's business all the same.
 template <class I> static I clamp_int(long long v) {
     I r = (I)v;
+#ifdef SIMRT_ASAN
     if (std::numeric_limits<I>::is_signed && r == std::numeric_limits<I>::min()) r = (I)(r + 1);
+#endif
     return r;
 }
 
